@@ -284,12 +284,51 @@ Fixpoint exec (c : cache) (ops : list (op K V)) : option cache :=
   | o :: ops' => match step c o with COk (c', _) => exec c' ops' | _ => None end
   end.
 
+(* ---- the trigger of known finding F2, as a test on the state a call starts from ----
+   heapq.Remove(pos) moves the element of the last slot into the hole at pos and (on the pinned
+   tree) only sifts it down.  That keeps the heap a heap exactly when pos is the root or the last
+   slot, or the moved element is not older than the hole's parent (CacheHeapGuard.v:
+   pop_heap_no_siftup, pop_breaks_order). *)
+Definition rm_safe (d : list prio) (pos : Z) : bool :=
+  (pos =? 0) || (len d - 1 <=? pos) ||
+  match get d (len d - 1), get d ((pos - 1) / 2) with
+  | Some last, Some par => lastAccess par <=? lastAccess last
+  | _, _ => false
+  end.
+
+(* the call o performs no heapq.Remove that would need a sift-up: only Get, Remove and a replacing
+   Put call heapq.Remove, at the offset recorded for their key *)
+Definition op_safe (c : cache) (o : op K V) : bool :=
+  let at_key k := match map_get (present (store c)) k with
+                  | Some pos => rm_safe (data (access (store c))) pos
+                  | None => true
+                  end in
+  match o with
+  | OPut k v => if CacheIdx.put_refuse (sizeOf v) (limit c) then true else at_key k
+  | OGet k | ORemove k => at_key k
+  | _ => true
+  end.
+
+(* ... along a whole history (a failing call ends the history, as in [run]) *)
+Fixpoint run_safe (c : cache) (ops : list (op K V)) : bool :=
+  match ops with
+  | [] => true
+  | o :: ops' =>
+    op_safe c o && match step c o with COk (c', _) => run_safe c' ops' | _ => true end
+  end.
+
 (* cache.New(limit, LRU().WithSize(sizeOf).OnEvict(log)) followed by a history *)
 Definition run_new (lim : Z) (ops : list (op K V)) : list event :=
   match cache_new lim with
   | COk c => run c ops
   | CPanic k => [EPanic k]
   | CFuel => [EFuel]
+  end.
+
+Definition run_new_safe (lim : Z) (ops : list (op K V)) : bool :=
+  match cache_new lim with
+  | COk c => run_safe c ops
+  | _ => true
   end.
 
 Definition run_new_states (lim : Z) (ops : list (op K V)) : list (event * option cache) :=
@@ -326,3 +365,7 @@ Definition size_mode (mode : Z) (v : Z) : Z :=
 
 Definition run_Z (hv : variant) (mode lim : Z) (ops : list (op Z Z)) : list (event Z Z * option (cache Z Z)) :=
   run_new_states Z Z Z.eqb 0 0 (size_mode mode) hv lim ops.
+
+(* no call of the history starts a heapq.Remove that needs a sift-up (the F2 trigger never fires) *)
+Definition safe_Z (hv : variant) (mode lim : Z) (ops : list (op Z Z)) : bool :=
+  run_new_safe Z Z Z.eqb 0 0 (size_mode mode) hv lim ops.
